@@ -220,9 +220,12 @@ def _chunk_worker(args):
     agg = {"stats": Counter(), "probes": Counter(), "states": set(), "trans": set(),
            "digests": [], "nontrivial": [], "steps": 0, "oracle_steps": 0,
            "violations": [], "samples": [], "cfgs": Counter(), "extra": []}
+    flt = json.loads(os.environ.get("VERIF_FILTER") or "null")
     for idx in range(lo, hi):
         rng = run_rng(seed, mod.PROP_ID, idx)
         cfg = mod.gen_config(rng, tier)
+        if flt and any(cfg.get(k) != v for k, v in flt.items()):
+            continue   # batch replay: only the runs that feed the replayed statistic
         signal.alarm(180)
         try:
             r = execute(mod.RunClass, cfg, rng=rng, max_steps=cfg["steps"])
@@ -247,8 +250,13 @@ def _chunk_worker(args):
                                       "violation": r["violation"]})
         if r["nontrivial"] and r["violation"] is None and 2 <= r["steps"] <= 6 and len(agg["samples"]) < 2:
             agg["samples"].append({"run": idx, "cfg": cfg, "ops": r["ops"]})
+        elif r["nontrivial"] and r["violation"] is None and not agg["samples"] and not agg.get("long_sample"):
+            agg["long_sample"] = {"run": idx, "cfg": cfg, "ops": r["ops"][:5], "truncated_from_steps": r["steps"]}
         if hasattr(mod, "collect_extra"):
             pass
+    if not agg["samples"] and agg.get("long_sample"):
+        agg["samples"].append(agg["long_sample"])
+    agg.pop("long_sample", None)
     if hasattr(mod, "drain_batch_stats"):
         agg["extra"] = mod.drain_batch_stats()
     faulthandler.cancel_dump_traceback_later()
